@@ -485,6 +485,15 @@ def curated():
     T.append(S("DeferredMixedAlign", [F("a", "u8"), F("b", "u8"), F("c", "u32"), F("d", "u32"), F("e", "u8"), F("v", "Vec<u8>")], containers=("vec",)))
     T.append(S("Collections1", [F("v", "Vec<u32>"), F("m", "std::collections::BTreeMap<u8, String>"), F("o", "Option<Box<u16>>"), F("r", "Result<u8, String>")]))
     T.append(S("ZstMember", [F("a", "u32"), F("z", "()"), F("b", "u32")], repr="C", containers=("vec",)))
+    # repr(Rust) structs whose fields rustc may permute inside one alignment class (niche-carrying first)
+    T.append(S("NicheMix1", [F("a", "bool"), F("b", "u8"), F("c", "bool"), F("d", "u8")], containers=("vec", "arr")))
+    T.append(S("NicheMix2", [F("a", "u8"), F("b", "bool"), F("c", "u8"), F("d", "bool"), F("e", "u8")], containers=("vec",)))
+    T.append(S("NicheMix3", [F("a", "u32"), F("b", "char"), F("c", "u32"), F("d", "char"), F("s", "String")], containers=("vec",)))
+    T.append(S("NicheMix4", [F("x", "u16"), F("a", "bool"), F("b", "u8"), F("c", "bool"), F("d", "u8"), F("y", "u16")], containers=("vec", "arr")))
+    T.append(S("NicheMix5", [F("a", "UnitEnumU8"), F("b", "u8"), F("c", "UnitEnumU8"), F("d", "i8")], containers=("vec",)))
+    T.append(S("NicheMix6", [F("a", "f32"), F("b", "char"), F("c", "u32"), F("d", "i32"), F("e", "char")], containers=("vec", "arr")))
+    T.append(S("ManyU8", [F("a", "u8"), F("b", "u8"), F("c", "u8"), F("d", "u8"), F("e", "u8")], containers=("vec", "arr")))
+    T.append(S("VecOfArrayVec", [F("v", "Vec<arrayvec::ArrayVec<u32, 4>>"), F("a", "[arrayvec::ArrayVec<u8, 3>; 2]")], tags=("arrayvec-packed",), containers=()))
     # ignore / defaults
     T.append(S("Ignored1", [F("a", "u32"), F("b", "u32", ignore=True), F("c", "u16")], repr="C", tags=("ignore",), containers=("vec",)))
     T.append(S("IgnoredDefaultVal", [F("a", "u8"), F("b", "u32", ignore=True, default_val="42")], tags=("ignore",), containers=("vec",)))
@@ -502,6 +511,10 @@ def curated():
     T.append(E("ReprCEnum", [Vr("A"), Vr("B")], repr="C", containers=("vec", "arr")))
     T.append(E("NestedEnum", [Vr("P", [F("x0", "PackedC")]), Vr("E", [F("x0", "UnitEnumU8"), F("x1", "Option<DataEnum>")])], containers=("vec",)))
     T.append(S("HoldsUnitEnumU8", [F("e", "UnitEnumU8"), F("x", "u8")], repr="C", containers=("vec", "arr")))
+    # discriminant width boundaries (implicit width: 1 byte up to 256 variants, 2 bytes up to 65536)
+    T.append(E("Enum255", [Vr("V%d" % i) for i in range(255)], containers=("vec",)))
+    T.append(E("Enum256", [Vr("V%d" % i) for i in range(256)], containers=("vec", "opt")))
+    T.append(E("Enum257", [Vr("V%d" % i) for i in range(256)] + [Vr("Last", [F("x0", "u8")])], containers=("vec",)))
     # defect candidates (D1, D2): kept so that the checks decide them
     T.append(E("ExplDiscU8", [Vr("A", discr=5), Vr("B", discr=7)], repr="u8", tags=("explicit-discr",), containers=("vec", "arr", "opt")))
     T.append(S("HoldsExplDisc", [F("e", "ExplDiscU8"), F("x", "u8")], repr="C", tags=("explicit-discr",), containers=("vec",)))
